@@ -79,7 +79,8 @@ Section NumberText.
   Hypothesis num_rt : forall p x, exact_prec max_precision p = true -> rd p x = x.
 
   (* save_load_doc: for EVERY container that satisfies the invariants of a vnacal_t the loader insists
-     on (wf_container: per used slot 0 <= rows, columns, dimensions fit the type, ports^2 <= INT_MAX/4,
+     on (wf_container: per used slot min_dim <= rows, columns (min_dim = 0 as coded, see finding DC1),
+     dimensions fit the type, ports^2 <= INT_MAX/4,
      frequency count fits int, the exported property sub-trees are importable, the frequencies as
      written at fprecision read back non-negative and strictly ascending; names of used slots
      distinct) - every type, any rows x columns, any number of frequencies, any slot vector with
